@@ -2,9 +2,14 @@
 # Re-run every kept seeded change (seeded/<id>/patch.diff) against the check of its property in a scratch worktree of
 # /repo's HEAD; prints one line per change: id, exit code of the check (1 = caught), VIOLATION kind.
 # usage: harness/seeded_regress.sh [tier] [id-pattern]
-cd "$(dirname "$(readlink -f "$0")")/.."
+# Runs in its OWN copy of /verif (generated Lean files and the lake build are per-checkout state: two checks pointed at
+# different repositories must not share them).
+SRC="$(dirname "$(readlink -f "$0")")/.."
 TIER="${1:-quick}"; PAT="${2:-*}"
 WT=/tmp/seedreg-$$
+COPY=/tmp/seedreg-verif-$$
+rsync -a --exclude replay "$SRC/" "$COPY/" || exit 2
+cd "$COPY"
 git -C /repo worktree add --detach "$WT" HEAD >/dev/null 2>&1 || exit 2
 for d in seeded/$PAT/; do
   id=$(basename "$d"); prop=$(python3 -c "import json;print(json.load(open('$d/meta.json'))['property'])")
@@ -18,4 +23,4 @@ for d in seeded/$PAT/; do
   echo "$id $prop exit=$rc violations=$nv no-input-lines=$kind $(grep -a "^\[$prop\]" /tmp/seedreg-$id.log | sed 's/.*obligations/obligations/')"
 done
 git -C /repo worktree remove --force "$WT"
-git checkout -- lean/NessaiVerif/Gen evidence 2>/dev/null
+cd /; rm -rf "$COPY"
